@@ -28,10 +28,146 @@ pub struct Case {
 	pub map_stream: Vec<u8>,
 	/// class entries are handed over parsed / as bytes / the whole jar as a zip archive
 	pub input_form: u8,
+	/// seed of the generic signatures put on classes, members, record components and local variables (0 = the random
+	/// strings of the class generator stay)
+	#[serde(default)]
+	pub sigs: u64,
 }
 
 fn strategy() -> impl Strategy<Value = Case> {
-	(proptest::collection::vec(class_stream(), 1..=4), choices(), proptest::collection::vec(any::<u8>(), 0..120), 0u8..3).prop_map(|(streams, ch, map_stream, input_form)| Case { streams, ch, map_stream, input_form })
+	(proptest::collection::vec(class_stream(), 1..=4), choices(), proptest::collection::vec(any::<u8>(), 0..120), 0u8..3, prop_oneof![1 => Just(0u64), 3 => any::<u64>()])
+		.prop_map(|(streams, ch, map_stream, input_form, sigs)| Case { streams, ch, map_stream, input_form, sigs })
+}
+
+/// Generic signatures from the JVMS 4.7.9.1 grammar over the class names the jar and the mappings speak about: every
+/// Signature attribute (class, field, method, record component) and every LocalVariableTypeTable entry gets one, and
+/// members without a Signature get one in one case of three.
+pub fn realistic_signatures(models: &mut [CClass], seed: u64) {
+	if seed == 0 {
+		return;
+	}
+	let names: Vec<String> = CLASS_NAMES.iter().chain(JAR_CLASS_NAMES.iter()).filter(|n| !n.starts_with('[')).map(|s| s.to_string()).collect();
+	let mut g = crate::classfile::signature::SigGen::new(seed, names);
+	fn put(attrs: &mut Vec<Attr>, sig: String, add: bool) {
+		let mut found = false;
+		for a in attrs.iter_mut() {
+			if let Attr::Signature(s) = a {
+				*s = sig.clone();
+				found = true;
+			}
+		}
+		if !found && add {
+			attrs.push(Attr::Signature(sig));
+		}
+	}
+	for c in models.iter_mut() {
+		let s = g.class_signature();
+		let add = g.class_signature().len() % 3 == 0;
+		put(&mut c.attrs, s, add);
+		for a in c.attrs.iter_mut() {
+			if let Attr::Record(rc) = a {
+				for r in rc {
+					let s = g.field_signature();
+					put(&mut r.attrs, s, true);
+				}
+			}
+		}
+		for f in c.fields.iter_mut() {
+			let s = g.field_signature();
+			let add = s.len() % 3 == 0;
+			put(&mut f.attrs, s, add);
+		}
+		for m in c.methods.iter_mut() {
+			let s = g.method_signature();
+			let add = s.len() % 3 == 0;
+			put(&mut m.attrs, s, add);
+			for a in m.attrs.iter_mut() {
+				if let Attr::Code(code) = a {
+					for ca in code.attrs.iter_mut() {
+						if let Attr::LocalVariableTypeTable(t) = ca {
+							for lv in t {
+								lv.ty = g.field_signature();
+							}
+						}
+					}
+				}
+			}
+		}
+	}
+}
+
+/// the signature-carrying positions of a class in canonical order: (where, text)
+fn signature_slots(c: &CClass, with_record: bool) -> Vec<(String, String)> {
+	let mut c = c.canon();
+	if !with_record {
+		c.attrs.retain(|a| !matches!(a, Attr::Record(_)));
+	}
+	let mut out = Vec::new();
+	fn of(attrs: &[Attr], wher: &str, out: &mut Vec<(String, String)>) {
+		for a in attrs {
+			match a {
+				Attr::Signature(s) => out.push((format!("{wher}: Signature"), s.clone())),
+				Attr::Record(rc) => rc.iter().enumerate().for_each(|(i, r)| of(&r.attrs, &format!("{wher}: record component {i}"), out)),
+				Attr::Code(code) => {
+					for ca in &code.attrs {
+						if let Attr::LocalVariableTypeTable(t) = ca {
+							t.iter().enumerate().for_each(|(i, lv)| out.push((format!("{wher}: LocalVariableTypeTable entry {i}"), lv.ty.clone())));
+						}
+					}
+				}
+				_ => {}
+			}
+		}
+	}
+	of(&c.attrs, "class", &mut out);
+	c.fields.iter().enumerate().for_each(|(i, f)| of(&f.attrs, &format!("field {i}"), &mut out));
+	c.methods.iter().enumerate().for_each(|(i, m)| of(&m.attrs, &format!("method {i}"), &mut out));
+	out
+}
+
+/// Generic signatures and the simple names of InnerClasses entries.  dukebox leaves both untouched today (TODOs in
+/// remap.rs) and the statement does not list them among the reference-carrying positions, so two outcomes are accepted at
+/// each position: the original text, or the text with every class name replaced by the remapper's answer (for the
+/// `Outer<..>.Inner` form: any text of the same shape).  Anything else - a signature dropped, garbled, truncated or
+/// attached to another member - is "non-name content changed".
+fn check_signatures(what: &str, old: &str, input: &CClass, got: &CClass, answers: &impl crate::classfile::rename::Answers, obs: &mut Obs) -> PropResult {
+	use crate::classfile::signature::{rename_signature, shape};
+	// record components dropped as a whole are the business of the recorded finding, not of this comparison
+	let with_record = got.attrs.iter().any(|a| matches!(a, Attr::Record(_)));
+	let (a, b) = (signature_slots(input, with_record), signature_slots(got, with_record));
+	if a.len() != b.len() || a.iter().zip(b.iter()).any(|(x, y)| x.0 != y.0) {
+		return Err(format!("{what}: class {old}: the signature-carrying positions are {:?}, the input has {:?}", b.iter().map(|x| &x.0).collect::<Vec<_>>(), a.iter().map(|x| &x.0).collect::<Vec<_>>()));
+	}
+	for ((wher, orig), (_, g)) in a.iter().zip(b.iter()) {
+		if g == orig {
+			obs.label("signature:kept");
+			continue;
+		}
+		let ok = match rename_signature(orig, &mut |n| answers.class(n)) {
+			Some(Ok(r)) => *g == r.text || (r.dotted && shape(g).as_deref() == Some(r.shape.as_str())),
+			_ => false,
+		};
+		if !ok {
+			return Err(format!("{what}: class {old}: {wher} was {orig:?} and is {g:?} now: neither unchanged nor the same signature with the remapper's class names"));
+		}
+		obs.label("signature:renamed");
+	}
+	// simple names of InnerClasses entries: unchanged, or the tail of the new inner class name
+	let inner = |c: &CClass| -> Vec<(String, Option<String>)> { c.canon().attrs.iter().filter_map(|a| if let Attr::InnerClasses(l) = a { Some(l.iter().map(|ic| (ic.inner.clone(), ic.name.clone())).collect::<Vec<_>>()) } else { None }).flatten().collect() };
+	let (ia, ib) = (inner(input), inner(got));
+	if ia.len() == ib.len() {
+		for ((_, n_old), (new_inner, n_new)) in ia.iter().zip(ib.iter()) {
+			let ok = match (n_old, n_new) {
+				(None, None) => true,
+				(Some(o), Some(n)) => o == n || (!n.is_empty() && new_inner.strip_suffix(n.as_str()).is_some_and(|p| p.ends_with('$') || p.ends_with(|c: char| c.is_ascii_digit()))),
+				_ => false,
+			};
+			if !ok {
+				return Err(format!("{what}: class {old}: the simple name of the InnerClasses entry for {new_inner} was {n_old:?} and is {n_new:?} now"));
+			}
+		}
+	}
+	Ok(())
 }
 
 /// the classes of the jar: distinct names, acyclic inheritance among them (unknown attributes at every level included)
@@ -268,7 +404,8 @@ pub fn canon_blank(c: &CClass) -> CClass {
 }
 
 fn check(case: &Case, obs: &mut Obs) -> PropResult {
-	let models = jar_models(&case.streams, 4, 30);
+	let mut models = jar_models(&case.streams, 4, 30);
+	realistic_signatures(&mut models, case.sigs);
 	let mut class_bytes: Vec<(String, Vec<u8>)> = Vec::new();
 	for m in &models {
 		match encode(m, &case.ch) {
@@ -491,6 +628,7 @@ fn check_jar(class_bytes: Vec<(String, Vec<u8>)>, models: &[CClass], map_stream:
 	let mut masked_gap = false;
 	let mut compare = |what: &str, name: &str, got: &CClass, obs: &mut Obs| -> PropResult {
 		let (strict, gapped, old) = &expected_classes[name];
+		check_signatures(what, old, &inputs[old], got, &answers, obs)?;
 		let got = canon_blank(got);
 		let mut want = canon_blank(strict);
 		if got != want && canon_blank(gapped) == got && *gapped != *strict {
